@@ -103,7 +103,8 @@ def gen_chunked(rng, n):
              dict(name=b"c", dtype="int32", dims=[4, 6], cdims=[2, 3], data=bytes(range(96))),
              dict(name=b"edge", dtype="uint16", dims=[5, 7], cdims=[2, 3], data=bytes(i % 251 for i in range(70))),
              dict(name=b"one", dtype="float64", dims=[2, 2], cdims=[2, 2], data=bytes(range(32))),
-             dict(name=b"r3", dtype="int8", dims=[3, 2, 3], cdims=[2, 1, 2], data=bytes(range(18)))]
+             dict(name=b"r3", dtype="int8", dims=[3, 2, 3], cdims=[2, 1, 2], data=bytes(range(18))),
+             dict(name=b"r17", dtype="float64", dims=[1] * 16 + [3], cdims=[1] * 16 + [2], data=bytes(range(24)))]
     while len(cases) < n:
         dt = rng.choice(DTYPES)
         if rng.random() < 0.06:
